@@ -38,3 +38,17 @@ Definition row_dec (r : list Z * obs item) : bool :=
 Definition row_reenc (r : list Z * obs (list Z)) : bool :=
   let '(bytes, o) := r in
   res_obs_eqb zlist_eqb (do i <- unmarshal_value bytes ;; Ok (wire_enc i)) o.
+
+(** operation-level row (C02): a script of reader operations run through the public
+    ttlv.Decoder API on [bytes] produced the outputs [outs] *)
+From KV Require Import Reader.
+Definition rout_eqb (a b : rout) : bool :=
+  match a, b with
+  | RNum x, RNum y => x =? y
+  | RBool x, RBool y => Bool.eqb x y
+  | RStr x, RStr y => zlist_eqb x y
+  | RUnit, RUnit | ROpen, ROpen | RClose, RClose | RErr, RErr | RPanic, RPanic => true
+  | _, _ => false
+  end.
+Definition row_ops (r : Z * list rop * list Z * list rout) : bool :=
+  let '(fuel, ops, bytes, outs) := r in list_eqb rout_eqb (run_script fuel ops bytes) outs.
